@@ -157,7 +157,11 @@ pub fn select_connection(
     // ranking. Otherwise we fall back to the full pool — better to send
     // on a gated link than to drop the packet.
     let any_unconstrained = conns.iter().any(|c| {
-        !c.is_timed_out(current_time_ms)
+        // Only a connected link can actually carry the packet (a disconnected
+        // one scores below the selection floor), so only a connected link may
+        // justify excluding or crushing the constrained ones.
+        c.connected
+            && !c.is_timed_out(current_time_ms)
             && c.is_schedulable()
             && !c.weak
             && !c.loss_degraded
